@@ -64,8 +64,9 @@ def history_probe(rep: Report, rng: random.Random, n: int) -> None:
             up = torch.randn(shape, dtype=torch.float64).to(dt)
             y = scale_fwd(scale_bwd(x, fb), ff)
             (g,) = torch.autograd.grad(y, x, up)
-            okf = y.dtype == dt and torch.allclose(y.detach().double(), x.detach().double() * ff, rtol=tols[dt], atol=0)
-            okb = g.dtype == dt and torch.allclose(g.double(), up.double() * fb, rtol=tols[dt], atol=0)
+            sub = torch.finfo(dt).smallest_normal * torch.finfo(dt).eps     # spacing of the subnormals: products may land there (float16)
+            okf = y.dtype == dt and torch.allclose(y.detach().double(), x.detach().double() * ff, rtol=tols[dt], atol=sub)
+            okb = g.dtype == dt and torch.allclose(g.double(), up.double() * fb, rtol=tols[dt], atol=sub)
             rep.case(("history", i, str(dt)))
             if not (okf and okb):
                 rep.violation(f"scale_bwd(x, {fb!r}) / scale_fwd(x, {ff!r}) in {dt} after the dtype history {[str(d) for d in order[: order.index(dt)]]}: value multiplier ok={okf}, gradient multiplier ok={okb}",
